@@ -134,6 +134,14 @@ class Group(EntityContainer):
         if parent is None:
             parent = self.parent
 
+        ancestor = parent
+        while isinstance(ancestor, Group):
+            if ancestor is self:
+                raise ValueError(
+                    "A group cannot be copied into itself or one of its descendants."
+                )
+            ancestor = getattr(ancestor, "_parent", None)
+
         new_entity = parent.workspace.copy_to_parent(
             self, parent, copy_children=False, **kwargs
         )
